@@ -78,3 +78,13 @@ Definition weighting_case (s : sector) (ws : list (string * string)) (res : stri
   | Err e, Err e' => err_eqb e e'
   | _, _ => false
   end.
+
+(** the same against the models with the single-issuer check (proposed fix D22) *)
+Definition money_case_checked (c issuer : string) (mk : nat) (z : zone)
+           (expected : result (list (nat * list (string * xeqn)))) : bool :=
+  result_matches (money_generate_checked c issuer mk z) expected.
+
+Definition deposit_case_checked (c issuer : string) (mk : nat) (z : zone)
+           (expected : result (list (nat * list (string * xeqn)))) (lags : list (string * string)) : bool :=
+  result_matches (deposit_generate_checked c issuer mk z) expected &&
+  match expected with Ok _ => lags_eqb (deposit_lags c issuer z) lags | Err _ => true end.
